@@ -520,6 +520,9 @@ class TAPParser:
                     yield self.Error(f'Missing test numbers (expected {self.num_tests}, got test numbered {self.highest_test}')
             elif self.duplicate_test:
                 yield self.Error('Duplicate test numbers (a test number was used more than once)')
+            elif 0 in self.seen_tests:
+                # test numbers start at 1, so a test numbered 0 stands in for a missing one
+                yield self.Error(f'Missing test numbers (expected 1..{self.num_tests}, got test numbered 0)')
 
 class TestLogger:
     def flush(self) -> None:
